@@ -7,7 +7,6 @@ strategy terms:
       serialize(v)   -> "S<id>"      deserialize(j) -> MarkedStr("D<id>")   (the marker names the winner)
   ["shift", id, "both", k]   a lossless strategy for exact ints: serialize v + k, deserialize j - k (ValueError unless type(j) is int)
 """
-from __future__ import annotations
 
 import collections
 
